@@ -125,8 +125,7 @@ def render(dot, predicate: Predicate, node_nr):
             case IsTruthyPredicate():
                 return add_node("truthy", label="truthy")
             case FnPredicate(predicate_fn):
-                code = getattr(predicate_fn, "__code__", None)
-                name = code.co_name if code else getattr(predicate_fn, "__name__", repr(predicate_fn))
+                name = getattr(predicate_fn, "__name__", repr(predicate_fn))
                 return add_node("fn", label=f"fn: {name}")
             case GePredicate(v):
                 return add_node("ge", label=f"x ≥ {v}")
